@@ -407,3 +407,45 @@ Example C10_history_refines_msgpath_example :
    = [(1, VBytes 9 [120]);
       (3, VMsg [(2, VMsg [(1, VBytes 9 (repeat 98 130%nat)); (7, VScalar 16 (-5))]); (1, VBytes 9 [])])]).
 Proof. vm_compute. repeat split; reflexivity. Qed.
+
+(* PROVED PART 5 = priority (2), the failed-op half for the message-path fragment, ANY depth (all repairs in):
+   (a) a sub node whose type is not the declared type of an EXISTING target (wrong kind, same wire class or not):
+       the coded SetByPath answers error class 1 and leaves the buffer unchanged; the specification refuses every sub
+       value that is not well-formed for the declared type;
+   (b) the path runs into an ABSENT intermediate message (steps still to go): error class 1, buffer unchanged, and
+       pset = None.
+   Not covered: failures on list-index / map-key steps, unknown field numbers / names. *)
+From DG Require Import ProtoEditRefine3.
+Theorem C10_coded_failed_op_msgpath_partial :
+  (forall S root m ids R1 l R2 xo tk t sub nk,
+     wf_msg S root m = true -> blen (encode_msg m) < 2 ^ 63 ->
+     actx S root m ids = Some (R1, l, R2, xo, tk) -> tk <> [] ->
+     atype S root ids = Some t -> nk <> td_type (td_base t) ->
+     coded_set_t all_fixes S root (encode_msg m) (map PField ids) sub nk = CRes 1 true (encode_msg m)) /\
+  (forall S root m ids R1 l R2 xo tk t x,
+     actx S root m ids = Some (R1, l, R2, xo, tk) -> tk <> [] ->
+     atype S root ids = Some t -> wf_fld S LSingular t x = false ->
+     pset S root m (map PField ids) x = None) /\
+  (forall S root m ids t sub nk x,
+     wf_msg S root m = true -> blen (encode_msg m) < 2 ^ 63 ->
+     absent_inner S root m ids = true ->
+     path_type_lax S LSingular (TMsg root) (map PField ids) = Some (LSingular, t) ->
+     coded_set_t all_fixes S root (encode_msg m) (map PField ids) sub nk = CRes 1 false (encode_msg m) /\
+     pset S root m (map PField ids) x = None).
+Proof.
+  split; [exact coded_set_wrong_type_msgpath|]. split; [|exact coded_set_absent_inner_msgpath].
+  intros S root m ids R1 l R2 xo tk t x Hc Htk Hat Hx. unfold pset.
+  rewrite (pset_at_illtyped S ids root m R1 l R2 xo tk t x Hc Htk Hat Hx). reflexivity.
+Qed.
+Print Assumptions C10_coded_failed_op_msgpath_partial.
+
+(* non-vacuity: a sint32 node (kind 17) on the int64-typed (sfixed64, kind 16) ... field 7 two levels down is refused;
+   a path through the absent sub-message 3.2.2 fails *)
+Example C10_coded_failed_op_example :
+  coded_set_t all_fixes exS3 [77; 48] (encode_msg exM3) (map PField [3; 2; 1]) [2; 120; 121] 12
+  = CRes 1 true (encode_msg exM3) /\
+  absent_inner exS3 [77; 48] exM3 [3; 2; 2; 1] = true /\
+  coded_set_t all_fixes exS3 [77; 48] (encode_msg exM3) (map PField [3; 2; 2; 1]) [1; 120] 9
+  = CRes 1 false (encode_msg exM3) /\
+  pset exS3 [77; 48] exM3 (map PField [3; 2; 2; 1]) (VBytes 9 [120]) = None.
+Proof. vm_compute. repeat split; reflexivity. Qed.
